@@ -1,4 +1,6 @@
 """C03 - filter chains and error isolation: Fanout.tla model-checked, every case replayed."""
+import os
+
 from driver import common as C
 
 PID = "C03"
@@ -27,6 +29,24 @@ def run(tier, replay=None):
     for m in C.read_ndjson(outp):
         run.mismatch({"kind": m["mismatch"].get("what")}, m)
     run.traces = len(cases)
+    # the error handler given at the process-wide entry point (init_config_with_err_handler) hears of every failed
+    # delivery exactly once - also after reconfigurations: a child process walks four configurations with a failing
+    # appender (the same child the C02 replay uses)
+    tg = ["", "a", "a::b", "z"]
+    cfg_a = {"root": {"lvl": 3, "apps": ["A", "B"]}, "loggers": [{"name": "a", "lvl": 5, "add": True, "apps": ["A"]}],
+             "max": 5, "thr": [3, 5, 5, 3], "att": [["A", "B"], ["A", "A", "B"], ["A", "A", "B"], ["A", "B"]]}
+    cfg_b = {"root": {"lvl": 4, "apps": ["A"]}, "loggers": [{"name": "a::b", "lvl": 2, "add": False, "apps": ["A", "B"]}],
+             "max": 4, "thr": [4, 4, 2, 4], "att": [["A"], ["A"], ["A", "B"], ["A"]]}
+    wd = C.workdir("c03_handler")
+    inp, outp = os.path.join(wd, "steps.ndjson"), os.path.join(wd, "out.ndjson")
+    C.write_ndjson(inp, [{"meta": "targets", "targets": tg}, cfg_a, cfg_b, cfg_a, cfg_b])
+    p = C.run_harness(["levelgate", inp, outp, "init_with_handler"], timeout=300, allow_rc=(0, 101, 134))
+    if p.returncode != 0:
+        run.mismatch({"kind": "panic in the child that uses init_config_with_err_handler"}, {"stderr": p.stderr[-2000:]})
+    else:
+        for m in C.read_ndjson(outp):
+            run.mismatch({"kind": m["mismatch"]["what"], "init": "init_with_handler"}, m)
+        run.traces += 1
     run.evaluations = len(cases) + 60
     # non-trivial: some filter rejects or accepts, or some appender fails
     run.nontrivial = sum(1 for c in cases
